@@ -30,7 +30,11 @@ RULE = ("genomes of 1..4 chromosomes (sizes 0..6; names where one is a prefix of
         "constructors (from_fields, np.concatenate, from_track, get_sorted_stream, sorted locations), file readers "
         "(Genome.from_file on .chrom.sizes / .fa, read_intervals, read_track, read_locations incl. numeric names, "
         "read_sequence, BinnedGenome.from_file/count_file), GenomicSequence dict and FASTA backends, StreamedGeometry; "
-        "merge inputs that are outside a chromosome or not in genome order must raise. Non-trivial = "
+        "merge inputs that are outside a chromosome or not in genome order must raise. Genomes with more contigs than fit one "
+        "byte (257, 300; thorough 600) with entries on the contigs around index 255/256 and the last one, through every op; "
+        "two genome objects over the same chromosomes in different orders (permutation, sort_names) alive together: a track "
+        "(in memory and streamed) of one indexed with intervals or a mask of the other, and mask & mask, must give the right "
+        "chromosome's values or refuse (op xgenome). Non-trivial = "
         ">= 2 included chromosomes and some entry touches a chromosome end or position 0")
 EXHAUSTIVE = {"quick": False, "thorough": False}
 MODEL_OPS = {"lookup", "l2g", "g2l", "pileup", "mask", "merge", "clip", "extend", "windows", "sort", "extract", "location"} | c10_extra.MODEL_OPS
@@ -762,6 +766,17 @@ def oracle(c):
 
 
 def agree(c, got, exp):
+    if c["op"] == "xgenome":
+        # two genome objects with different chromosome orders: the right values, or an explicit refusal
+        exp = dict(exp)
+        refusal_ok = exp.pop("refusal_ok")
+        if isinstance(got, dict) and got.get("err") == "raised":
+            return refusal_ok
+        return core.canon(got) == core.canon(exp)
+    return _agree(c, got, exp)
+
+
+def _agree(c, got, exp):
     if isinstance(got, dict) and got.get("err") == "raised":
         return exp.get("err") == "raised"
     if c["op"] == "sort" and c.get("via") == "geometry" and isinstance(got, dict) and "iv" in got:
